@@ -19,6 +19,7 @@
 -/
 import IbcVerif.Lemmas.Relay
 import IbcVerif.Lemmas.Height
+import IbcVerif.Props.C04
 import IbcVerif.Props.C07
 import IbcVerif.Props.C16
 namespace IbcVerif.C05
@@ -312,6 +313,28 @@ theorem recv_v1_mutant_rejected (hlen : ∀ b, (H b).length = 32) (hnc : ¬ Coll
     rcases C07.v1_commitment_binds H hlen _ _ hq (committedV1_WF _) (Option.some.inj hv') with e | c
     · exact absurd ⟨e1.symm, e2.symm, (e3 rfl).symm, e.symm⟩ hmut
     · exact absurd c hnc
+
+omit hlen in
+/-- **the timeout guard is the one of C04.**  The guard the receive handler evaluates is exactly
+    `World.recvGuardV1` / `World.recvGuardV2`, the receive-side guards of the two-chain timeout theorems
+    (C04: a packet that passes this guard in some block can never be timed out on the sender, and vice
+    versa) — so "unexpired" here and "never both received and timed out" there speak about the same check. -/
+theorem recv_v1_guard_is_world_guard (f : RecvV1) (hnow : f.env.nowNs < 2^64) :
+    (!f.pkt.timeout.elapsed f.env.self (UInt64.ofNat f.env.nowNs)) =
+      World.recvGuardV1 (fun _ => f.env.nowNs)
+        ⟨f.pkt.timeout.height.rev.toNat, f.pkt.timeout.height.h.toNat, f.pkt.timeout.ts.toNat⟩
+        f.env.self.rev.toNat f.env.self.h.toNat := by
+  have h := C04.elapsedNat_eq f.pkt.timeout.height f.pkt.timeout.ts f.env.self (UInt64.ofNat f.env.nowNs)
+  have hn : (UInt64.ofNat f.env.nowNs).toNat = f.env.nowNs := by
+    rw [UInt64.toNat_ofNat']
+    exact Nat.mod_eq_of_lt hnow
+  rw [hn] at h
+  unfold World.recvGuardV1
+  rw [← h]
+
+omit hlen in
+theorem recv_v2_guard_is_world_guard (f : RecvV2) :
+    decide (nowSecs f.env < f.pkt.timeout.toNat) = World.recvGuardV2 (fun _ => f.env.nowNs) f.pkt.timeout.toNat 0 := rfl
 
 omit hlen in
 /-- **unexpired (v2).**  A received v2 packet's timeout (seconds) is strictly after the chain's own block
